@@ -7,7 +7,7 @@ same recorded tree -> diff -> independent structural validator (the property ora
 import os, json, re, subprocess, shutil
 import vlib
 
-VF = ["DagFile/FlattenModel.v", "DagFile/PruneModel.v", "DagFile/CodecModel.v", "DagFile/ChronoModel.v"]
+VF = ["DagFile/FlattenModel.v", "DagFile/PruneModel.v", "DagFile/CodecModel.v", "DagFile/ChronoModel.v", "DagFile/DagSpec.v"]
 PROF_SRCS = ["chronological.c", "dag_recorder.c", "dag_recorder_no_inl.c", "dr_dump.c", "gen_dot.c", "gen_gpl.c",
              "gen_stat.c", "gen_text.c", "interpolate_counters.c", "options.c", "papi_counters.c", "read_dag.c"]
 
@@ -288,10 +288,11 @@ def gen_case(r, cid, thorough, hexlim=40):
         c_cmc = r.choice([1, 2, 3, 5, 8, 13, 30, 100])
         c_umin, c_cmax = (1 << 62), (1 << 62)        # so that only the count test decides
     sc = r.choice([1, 1000, 123456789, (1 << 40) + 7, r.rng(1, 1 << 20)])
-    # chk_level=1 turns the recorder's dr_check()s into aborts.  Not with count-based contraction: collapsing a
-    # multi-worker subgraph there trips the debugging check dr_check_min_node_count (see notes/C19.md), which is
-    # about the recorder's min_node_count bookkeeping (C18), not about the dag file.
-    chk = r.below(2) if fam != "count" else 0
+    # chk_level=1 turns the recorder's dr_check()s into aborts.  Not when a multi-worker subgraph can be
+    # collapsed (count-based contraction, or a span below uncollapse_min): that trips the debugging check
+    # dr_check_min_node_count (see notes/C19.md), which is about the recorder's min_node_count bookkeeping
+    # (C18), not about the dag file.
+    chk = r.below(2) if (fam != "count" and umin == 0) else 0
     line = "case %d hex %d nw %d sc %d chk %d rec %d %d %d %d %d conv %d %d %d files %d %s prog %s" % (
         cid, hexlim, nw, sc, chk, umin, cmax, nct, pth, cmc, c_umin, c_cmax, c_cmc, nf, " ".join(names),
         " ".join(map(str, prog)))
@@ -419,6 +420,9 @@ def compare(L, impl, model):
     """list of (what, observed(library), expected(model)) disagreements for one case"""
     res = []
     il, ml = impl["lines"], model["lines"]
+    wf = tagged(ml, "WFTREE")
+    if not wf or wf[0] != "WFTREE true":
+        res.append(("the recorded tree does not satisfy the grammar wf_root assumed by the theorems", "", wf[0] if wf else "missing"))
     st = tagged(ml, "STACK")
     if not st or st[0] != "STACK same":
         res.append(("model-internal: explicit-stack enumeration vs recursive enumeration", "", st[0] if st else "missing"))
